@@ -129,6 +129,32 @@ func handleScan(db *NoKV.DB, req *pb.ScanRequest) (*pb.ScanResponse, error) {
 	resp := &pb.ScanResponse{}
 	iter.Rewind()
 	reader := percolator.NewReader(db)
+	inRange := func(key []byte) bool {
+		if len(startKey) == 0 {
+			return true
+		}
+		cmp := bytes.Compare(key, startKey)
+		return cmp > 0 || (cmp == 0 && includeStart)
+	}
+	// Keys that are locked at readTs, in key order. The lock column is
+	// iterated before the write column, so that a locked key without any
+	// write record still blocks the scan.
+	var lockedKeys [][]byte
+	blocked := func(upTo []byte) (bool, error) {
+		for len(lockedKeys) > 0 && (upTo == nil || bytes.Compare(lockedKeys[0], upTo) <= 0) {
+			key := lockedKeys[0]
+			lockedKeys = lockedKeys[1:]
+			lock, err := reader.GetLock(key)
+			if err != nil {
+				return false, err
+			}
+			if lock != nil && readTs >= lock.Ts {
+				resp.Error = lockedError(key, lock)
+				return true, nil
+			}
+		}
+		return false, nil
+	}
 	for iter.Valid() && len(resp.Kvs) < limit {
 		item := iter.Item()
 		if item == nil {
@@ -137,6 +163,13 @@ func handleScan(db *NoKV.DB, req *pb.ScanRequest) (*pb.ScanResponse, error) {
 		}
 		entry := item.Entry()
 		if entry == nil {
+			iter.Next()
+			continue
+		}
+		if entry.CF == kv.CFLock {
+			if inRange(entry.Key) {
+				lockedKeys = append(lockedKeys, kv.SafeCopy(nil, entry.Key))
+			}
 			iter.Next()
 			continue
 		}
@@ -152,6 +185,11 @@ func handleScan(db *NoKV.DB, req *pb.ScanRequest) (*pb.ScanResponse, error) {
 				continue
 			}
 			started = true
+		}
+		if stop, err := blocked(key); err != nil {
+			return nil, err
+		} else if stop {
+			return resp, nil
 		}
 		lock, err := reader.GetLock(key)
 		if err != nil {
@@ -172,6 +210,12 @@ func handleScan(db *NoKV.DB, req *pb.ScanRequest) (*pb.ScanResponse, error) {
 				Value:   value,
 				Version: readTs,
 			})
+		}
+	}
+	if resp.Error == nil && len(resp.Kvs) < limit {
+		// locked keys beyond the last key that has write records
+		if _, err := blocked(nil); err != nil {
+			return nil, err
 		}
 	}
 	return resp, nil
@@ -220,7 +264,11 @@ func collectVisibleValue(db *NoKV.DB, iter utils.Iterator, key []byte, readTs ui
 			return nil, false, err
 		}
 		switch write.Kind {
-		case pb.Mutation_Delete, pb.Mutation_Rollback:
+		case pb.Mutation_Rollback, pb.Mutation_Lock:
+			// no data: the visible value is decided by an older record
+			iter.Next()
+			continue
+		case pb.Mutation_Delete:
 			advanceToNextUserKey(iter, key)
 			return nil, false, nil
 		default:
